@@ -136,7 +136,10 @@ def main():
         try:
             if replay:
                 doc = json.load(open(replay, encoding="utf-8"))
-                cases = [mod.case_from_replay(doc) if hasattr(mod, "case_from_replay") else C.Case(doc["case"], doc["requests"], mod.default_compare)]
+                if doc["case"].endswith("/respelled"):
+                    cases = [C.Case(doc["case"], doc["requests"], getattr(mod, "default_compare", C.compare_run))]
+                else:
+                    cases = [mod.case_from_replay(doc) if hasattr(mod, "case_from_replay") else C.Case(doc["case"], doc["requests"], mod.default_compare)]
             else:
                 cases = mod.corpus_cases() if hasattr(mod, "corpus_cases") else []
                 cases += mod.cases(rng, tier, stats)
@@ -144,6 +147,13 @@ def main():
                 if skipped:
                     stats["skipped_over_budget"] = len(skipped)
                     cases = [c for c in cases if not c.info.get("skip")]
+                # respelled twins (tools/respell.py): the same programs with look-alike / same-normal-form spellings of the
+                # user names and string contents, compared model-vs-implementation
+                import respell
+                twins = respell.variants(cases, 3000 if tier == "thorough" else 300,
+                                         skip_names={k.get("case") for k in C.load_known() if k.get("status") == "known"})
+                stats["respelled_twins"] = len(twins)
+                cases += twins
             if hasattr(mod, "fix_root"):
                 mod.fix_root(cases, root)
             results = C.run_cases(cases, root)
